@@ -163,6 +163,30 @@ class Injector:
                             yield ('unknown type', 'COMPLEX_NOT_FOUND', self.site_kind(o, ctx), o, nt)
                         break
 
+        def partial_type():
+            # a container covering several versions as ONE object whose member type exists only piecewise per version
+            for o in conts:
+                pv = self.c.tag(o, 'paste_versions')
+                if not pv or self.c.tag(o, 'versions') or len(pv.split()) < 2:
+                    continue
+                mains = [e for e in ('vanilla', 'tbc', 'wrath') if wowm.world_covers(wowm.parse_world_versions(pv), wowm.WORLD_MAIN[e])]
+                if len(mains) < 2:
+                    continue
+                for ctx, m in decls(o['members']):
+                    cands = [d for d in self.c.objects if d['name'] == m['ty'] and d['k'] != 'test']
+                    if len(cands) < 2:
+                        continue
+                    # no single definition of the type covers all versions of the container
+                    def covers_all(d):
+                        vs = wowm.parse_world_versions(((self.c.tag(d, 'versions') or '') + ' ' + (self.c.tag(d, 'paste_versions') or '')))
+                        return all(wowm.world_covers(vs, wowm.WORLD_MAIN[e]) for e in mains)
+                    if any(covers_all(d) for d in cands):
+                        continue
+                    nt = self.mutate_block(o, lambda b: sub_in(b, r'\bpaste_versions\s*=', 'versions ='))
+                    if nt:
+                        yield ('member type defined for only some of the versions of its container', 'COMPLEX_NOT_FOUND', self.site_kind(o, ctx), o, nt)
+                    break
+
         def recursive():
             for o in conts:
                 if o['k'] == 'struct':
@@ -320,7 +344,7 @@ class Injector:
                     if nt:
                         yield ('message name not in the opcode index', 'MESSAGE_NOT_IN_INDEX', self.site_kind(o), o, nt)
 
-        gens = [unknown_type, recursive, missing_enumerator, enum_and, flag_eq, no_version, both_versions, overlapping, duplicate_field, duplicate_value, invalid_value,
+        gens = [unknown_type, partial_type, recursive, missing_enumerator, enum_and, flag_eq, no_version, both_versions, overlapping, duplicate_field, duplicate_value, invalid_value,
                 invalid_base, mismatched_if, upcast, self_size, opcode, not_in_index]
         for g in gens:
             for item in spread(g(), per_rule):
